@@ -39,6 +39,8 @@ func witnessAxioms(u *U, f Ref, ex *E) Ref {
 				ax = u.bdd.And(ax, u.bdd.Imp(u.Atom(ex), u.Atom(at)))
 			}
 		}
+		// an empty map has no key at all
+		ax = u.bdd.And(ax, u.bdd.Imp(u.Atom(ex), u.bdd.Not(u.ToBool(u.Eq(u.Len(m), u.Int(0))))))
 	}
 	// an empty collection has no elements
 	ax = u.bdd.And(ax, u.bdd.Imp(u.Atom(ex), u.bdd.Not(u.ToBool(u.Eq(u.Len(coll), u.Int(0))))))
